@@ -12,10 +12,13 @@ open PwVerif PwVerif.Inject PwVerif.Proto
     inj <owner> <dunder> <operand>*               owner/operand: c<cid> | n<k> (output of injected node k)
                                                   operand also: r:<hex type name>:<hex str>:<hex repr>
         -> node <k> <Class> <new 0|1> <children of the parent | -> <input labels>
+    inj … !                                       the same, and the constructor of the new node raised (its auto-run
+                                                  failed): the node is not kept as a child
     slice <owner> <operand> <operand> <operand> <fff>   x[a:b:c] with a channel-like component; one flag per
                                                   component: N value is None, V other value, U no data yet
         -> slice <kSlice> <new> <kGetItem> <new> <children | ->
         -> slice <kSlice> 1 - - <children | ->          the new Slice node raised while auto-running
+    slice … <fff> !                               the constructor of the new GetItem node raised
     reload                                        pickle round trip of the parents: nothing changes
     restart                                       save, new interpreter session, load: children unchanged, but
                                                   (cfg hash salted) `hash` is a different function from now on
@@ -132,20 +135,24 @@ def step (s : DSt) (ws : List String) : DSt × List String :=
       let ch := s.st.children par ++ [(lab, 1000000 + s.extra)]
       ({ s with st := { s.st with children := updF s.st.children par ch }, extra := s.extra + 1 }, [])
     | _, _ => (s, ["bad-op"])
-  | "inj" :: owner :: dn :: ops =>
+  | "inj" :: owner :: dn :: ops0 =>
+    let raised := ops0.getLast? == some "!"
+    let ops := if raised then ops0.dropLast else ops0
     match chanRef s owner, parseDunder dn, ops.mapM (parseOperand s) with
     | some (oid, parent, sc), some d, some ops =>
       let e : Expr := { owner := oid, slabel := sc, cls := dispatch d, ops := ops }
       let keys := intern s.keys (key s.printer e)
       let H := hashIn s.session keys
-      let r := inject H s.printer s.st parent e
+      let r := injectX (label H s.printer) s.st parent e raised
       let isNew := r.2 == s.st.next
       let s1 := { s with st := r.1, keys := keys }
       let s2 := if isNew then regNode s1 r.2 parent (label H s.printer e) e.cls else s1
       if ops.length != arity d then (s, ["bad-op"]) else
       (s2, [s!"node {r.2} {e.cls} {if isNew then 1 else 0} {count s2 parent} {",".intercalate (clsInputs e.cls)}"])
     | _, _, _ => (s, ["bad-op"])
-  | ["slice", owner, a, b, c, flags] =>
+  | "slice" :: owner :: a :: b :: c :: flags :: rest =>
+    if rest != [] && rest != ["!"] then (s, ["bad-op"]) else
+    let gRaised := rest == ["!"]
     match chanRef s owner, parseOperand s a, parseOperand s b, parseOperand s c, parseFlags flags with
     | some (oid, parent, sc), some a, some b, some c, some (ready, sN, bN, cN) =>
       let es : Expr := { owner := oid, slabel := sc, cls := "Slice", ops := [a, b, c] }
@@ -166,7 +173,7 @@ def step (s : DSt) (ws : List String) : DSt × List String :=
       let eg : Expr := { owner := oid, slabel := sc, cls := "GetItem", ops := [item] }
       let keys2 := intern keys1 (key s.printer eg)
       let H := hashIn s.session keys2
-      let r := getitemSliceRun H s.printer s.sliceFn s.st parent oid sc a b c (· + 1000) ready sN bN cN
+      let r := getitemSliceX H s.printer s.sliceFn s.st parent oid sc a b c (· + 1000) ready sN bN cN gRaised
       match r.2.2 with
       | none => (s, ["bad-op"])   -- unreachable: the raising case was handled above
       | some kG =>
